@@ -161,7 +161,9 @@ func dotReplay(in io.Reader, raw bool, args []string) (*Summary, error) {
 			NodeAttrs: func(i int) []graphout.DotAttr {
 				return []graphout.DotAttr{{Name: "shape", Val: "box"}, {Name: "label", Val: label(i)}}
 			},
-			EdgeAttrs: func(i, j int) []graphout.DotAttr { return []graphout.DotAttr{{Name: "label", Val: s}, {Name: "weight", Val: j}} },
+			EdgeAttrs: func(i, j int) []graphout.DotAttr {
+				return []graphout.DotAttr{{Name: "label", Val: s}, {Name: "weight", Val: j}}
+			},
 		}.Sprint(graph.IntGraph(adj))
 		if msg := dotDocCheck(doc2, adj, label); msg != "" {
 			sum.viol("Dot-attrs", c, "%s; document:\n%s", msg, doc2)
